@@ -153,6 +153,11 @@ fn parse(text: &str) -> Parse {
                         self.builder.finish_node();
                     }
                 }
+
+                // A comment may be the last line of a paragraph.
+                if self.current().is_none() || self.current() == Some(NEWLINE) {
+                    return;
+                }
             }
 
             self.builder.start_node(ENTRY.into());
